@@ -269,11 +269,16 @@ class Checker:
                             f'{"<unset>" if cur is ABSENT else C.norm_text(repr(cur))[:80]}',
                             op=label))
         return False
+    src_tags = src_snap[1] if src_snap is not None else None
     for k in set(tags) | set(hist):
       if k in st:
         continue
       tv = [e for e in hist.get(k, []) if e.kind.name == 'UPDATE_TAGS']
       cur = tags.get(k, frozenset())
+      if src_tags is not None and src_tags.get(k, frozenset()) == cur:
+        src_tv = [e for e in src_snap[2].get(k, []) if e.kind.name == 'UPDATE_TAGS']
+        if [e.sequence_id for e in src_tv[-1:]] == [e.sequence_id for e in tv[-1:]]:
+          continue   # same tags, same last tag entry as the source: by induction
       if not tv:
         if cur:
           self.viols.append(V('last-tags-not-current',
@@ -318,7 +323,9 @@ class Checker:
                                 src_snap):
           return
         if label in DIRECT:
-          if not self.check_locations(cfg, {}, tid, idx, label):
+          # entries inherited from the source were judged when they were made
+          inherited = src_snap[2] if src_snap is not None else {}
+          if not self.check_locations(cfg, inherited, tid, idx, label):
             return
         continue
       b_args, b_tags, b_hist = self.snaps[id(cfg)]
